@@ -42,7 +42,10 @@ def get_go_type_from_attributes(molecule, prefix, **kwargs):
     """
     for node in molecule.nodes:
         attrs = molecule.nodes[node]
-        if attributes_match(attrs, kwargs) and attrs['atype'].startswith(prefix):
+        # Go site types are named '<prefix>_<resid>'. Include the underscore so
+        # that regular bead types that merely start with the prefix (molecule
+        # named 'P', bead type 'P2') are not mistaken for Go sites.
+        if attributes_match(attrs, kwargs) and attrs['atype'].startswith(prefix + '_'):
             yield attrs['atype']
     else:
         resid = kwargs['resid']
